@@ -21,6 +21,7 @@ def delimited_jelly_hint(header: bytes) -> bool:
     |--------|--------|--------|------------------------------------------|
     | `NN`   |  `??`  |  `??`  | Delimited                                |
     | `0A`   |  `NN`  |  `??`  | Non-delimited                            |
+    | `0A`   |  `7A`  |  `NN`  | Delimited (size = 10, metadata only)     |
     | `0A`   |  `0A`  |  `NN`  | Delimited (size = 10)                    |
     | `0A`   |  `0A`  |  `0A`  | Non-delimited (stream options size = 10) |
 
@@ -49,8 +50,14 @@ def delimited_jelly_hint(header: bytes) -> bool:
     False
     """
     magic = 0x0A
+    # A delimited stream may also open with a 10-byte frame that has no rows, only
+    # metadata (field 15, tag 0x7A); a non-delimited stream starting `0A 7A` has its
+    # options row (tag 0x0A) as the third byte.
+    metadata_tag = 0x7A
     return len(header) >= 3 and (  # noqa: PLR2004
-        header[0] != magic or (header[1] == magic and header[2] != magic)
+        header[0] != magic
+        or (header[1] == magic and header[2] != magic)
+        or (header[1] == metadata_tag and header[2] != magic)
     )
 
 
